@@ -5,7 +5,7 @@ package accumulation
 // (spec/stf/AccRounds.tla through AccRounds_Trace.tla).
 //
 // Input (VF_CASES): scenarios from spec/stf/AccRounds_Gen.tla
-//   {n, svcs:[{id, prog:[{op:"xfer",to,amt,tag}|{op:"rec"}|{op:"ckpt"}|{op:"panic"}]}], reports:[[id..]..], free:[id..], priv:id}
+//   {n, svcs:[{id, code, prog:[{op:"xfer",to,amt,tag,gas}|{op:"rec"}|{op:"yield",tag}|{op:"ckpt"}|{op:"panic"}]}], reports:[[id..]..], free:[id..], priv:id}
 // For every scenario the driver ASSEMBLES one real PVM accumulate program per service from its abstract program
 // (ecalli transfer / fetch / write / checkpoint, trap), installs the services in a fresh prior state, and runs the
 // real accumulation VF_RUNS times on identical prior states under varying GOMAXPROCS and types.MaxWorkers:
@@ -39,6 +39,7 @@ const (
 	arBuf    = 0x20000 // item buffer (rw data zone of a program without ro data)
 	arKey    = 0x20400 // storage key buffer
 	arMemo   = 0x20800 // transfer memo buffer (128 octets)
+	arOut    = 0x20C00 // accumulation output buffer (32 octets)
 	arRWSize = 4096
 )
 
@@ -140,6 +141,11 @@ func arAssemble(prog []any) []byte {
 			a.loadImm64(9, g)
 			a.loadImm64(10, arMemo)
 			a.ecalli(20)
+		case "yield": // output = [item count of the last rec (r6), tag, 0...]; yield(o = r7)
+			a.storeImmU32(arOut, uint32(vfd.I(op["tag"]))<<8)
+			a.storeU8(6, arOut)
+			a.loadImm64(7, arOut)
+			a.ecalli(25)
 		case "ckpt":
 			a.ecalli(17)
 		case "panic":
